@@ -451,6 +451,46 @@ Fixpoint values_at_marshal (ops : list hop) (cur : pmsg) : list pmsg :=
   | HMarshal :: r => cur :: values_at_marshal r cur
   end.
 
+(* 4b. The OUTPUTS of the codec are values.  A Go byte slice is a view of an array: what Marshal /
+   MarshalAppend / MarshalStable return must stay what it was when later calls are made (the
+   reference client encodes a request message, keeps the bytes and encodes the next one).
+   Memory of outputs = list of cells; a returned slice = the index of its cell.  `pooled = true`
+   is the variant whose result is a view of a scratch buffer that the next call takes again
+   (sync.Pool + buf.Bytes(), seeded change C18-27): every call writes the same cell. *)
+Section CodecKeep.
+  Variable wire : Type.
+  Variable marshal : pmsg -> wire.
+  Variable unmarshal : wire -> codec_result.
+  Variable pooled : bool.
+
+  Definition oheap := list wire.
+  Definition out_alloc (h : oheap) (w : wire) : oheap * nat := (h ++ [w], length h).
+  Definition out_write (h : oheap) (i : nat) (w : wire) : oheap := firstn i h ++ w :: skipn (S i) h.
+  (* state: the cells and the cell of the scratch buffer, once there is one *)
+  Definition marshal_call (st : oheap * option nat) (m : pmsg) : (oheap * option nat) * nat :=
+    let '(h, scratch) := st in
+    if pooled then
+      match scratch with
+      | Some i => ((out_write h i (marshal m), Some i), i)
+      | None => let '(h', i) := out_alloc h (marshal m) in ((h', Some i), i)
+      end
+    else let '(h', i) := out_alloc h (marshal m) in ((h', scratch), i).
+  (* the history of one message object as in section 4; every output is KEPT *)
+  Fixpoint run_keep (ops : list hop) (cur : pmsg) (st : oheap * option nat) : oheap * list nat :=
+    match ops with
+    | [] => (fst st, [])
+    | HSet m :: r => run_keep r m st
+    | HSize :: r => run_keep r cur st
+    | HMarshal :: r =>
+      let '(st', i) := marshal_call st cur in
+      let '(h, outs) := run_keep r cur st' in (h, i :: outs)
+    end.
+  (* ... and read again after ALL calls of the history, in the memory as it is then *)
+  Definition reread_outputs (ops : list hop) (cur : pmsg) : list (option codec_result) :=
+    let '(h, outs) := run_keep ops cur ([], None) in
+    map (fun i => option_map unmarshal (nth_error h i)) outs.
+End CodecKeep.
+
 (* ====================================================================== *)
 (* 5. Instances used by the extracted model                                *)
 (* ====================================================================== *)
@@ -733,6 +773,17 @@ Definition run_c18_codec_hist (args : list sx) : sx :=
        else run_hist _ (strict_json_marshal _ marshal_json_i) (strict_json_unmarshal _ unmarshal_json_i) false ops o))
   | _ => None end).
 
+(* c18.codec_keep: same case format as c18.codec_hist; every output of the history (Marshal,
+   MarshalAppend, MarshalStable of each encoding step) is kept and decoded only after the last call *)
+Definition run_c18_codec_keep (args : list sx) : sx :=
+  or_bad (match args with
+  | [I c; I _; steps] => do steps <- un_listof un_hstep steps;
+    let ops := concat steps in
+    ret (sx_list sx_hist_result
+      (if (c =? 0)%Z then reread_outputs _ (strict_proto_marshal _ marshal_bin_i) (strict_proto_unmarshal _ unmarshal_bin_i) false ops (PMsg [] [] [])
+       else reread_outputs _ (strict_json_marshal _ marshal_json_i) (strict_json_unmarshal _ unmarshal_json_i) false ops (PMsg [] [] [])))
+  | _ => None end).
+
 Definition c18_table : list (bytes * (list sx -> sx)) :=
   [ (bs "c18.err_connect", run_c18_err_connect);
     (bs "c18.err_go", run_c18_err_go);
@@ -748,5 +799,6 @@ Definition c18_table : list (bytes * (list sx -> sx)) :=
     (bs "c18.codec_rt", run_c18_codec_rt);
     (bs "c18.codec_unknown", run_c18_codec_unknown);
     (bs "c18.codec_hist", run_c18_codec_hist);
+    (bs "c18.codec_keep", run_c18_codec_keep);
     (bs "c18.alias_http", run_c18_alias);
     (bs "c18.alias_md", run_c18_alias) ].
